@@ -40,8 +40,6 @@ pub fn suffix_offset(whole: &str, suffix: &str) -> (r: usize)
     requires is_suffix(suffix@, whole@)
     ensures r as int == boff(whole@, whole@.len() - suffix@.len())
 { unimplemented!() }
-#[verifier::external_body]
-pub fn char_is_ascii_whitespace(c: char) -> (r: bool) ensures r == is_ws(c) { unimplemented!() }
 
 // vstd's prophetic iterator laws are not claimed for the three iterators; their contracts are on `next`
 impl<'a> vstd::std_specs::iter::IteratorSpecImpl for LinkAttributeParser<'a> {
@@ -86,7 +84,7 @@ def boundaries(name):
 def build(repo):
     u = Unit(NAME, repo)
     u.raw('use vstd::std_specs::iter::IteratorSpec;\n', 'units/lfp.py')
-    u.prelude('strmodel.rs', 'lfscan.rs')
+    u.prelude('charclass.rs', 'strmodel.rs', 'lfscan.rs')
     u.raw(SPEC, 'units/lfp.py')
     u.items('link_format.rs', 'pub enum ErrorLinkFormat', 'const QUOTE_ESCAPE_CHAR', 'const ATTR_SEPARATOR_CHAR', 'const LINK_SEPARATOR_CHAR',
             'pub struct LinkFormatParser', "impl<'a> Iterator for LinkFormatParser<'a>", 'pub struct LinkAttributeParser',
